@@ -12,6 +12,7 @@ mod report;
 mod sys;
 mod engines;
 mod hlp;
+mod mon_par;
 mod genp;
 mod exec;
 mod diff;
